@@ -886,3 +886,177 @@ Proof.
   - rewrite <- El. rewrite (split_last_char_ascii _ u Hu). rewrite (parse_i64_render n Hn).
     unfold unit_mult in Hm. rewrite Hm, Hnd'. reflexivity.
 Qed.
+
+(* ================================================================================================
+   5. Braces balance: an accepted file has as many closing-brace lines as lines that open a section
+   ================================================================================================ *)
+(* what a line does to the nesting level: +1 if (after comment stripping and trimming) it ends with an opening brace,
+   -1 if it is a closing brace, 0 otherwise *)
+Definition brace_delta (raw : bytes) : Z :=
+  match strip_suffix_byte LBRACE (clean_up raw) with
+  | Some _ => 1%Z
+  | None => if beq (clean_up raw) [RBRACE] then (-1)%Z else 0%Z
+  end.
+Definition balance (ls : list bytes) : Z := fold_right (fun l z => (brace_delta l + z)%Z) 0%Z ls.
+
+Lemma balance_app : forall a b, balance (a ++ b) = (balance a + balance b)%Z.
+Proof. induction a as [|x a IH]; intros b; [reflexivity|]. unfold balance in *. cbn [app fold_right]. rewrite IH. lia. Qed.
+
+Lemma balance_cons : forall l ls, balance (l :: ls) = (brace_delta l + balance ls)%Z.
+Proof. reflexivity. Qed.
+
+Definition bal_post (ls : list bytes) (r : res (node * pstate)) : Prop :=
+  match r with
+  | ROk (_, (rest, _)) => exists p, ls = p ++ rest /\ balance p = (-1)%Z
+  | _ => True
+  end.
+
+Definition ps_bal (ps : nat -> bytes -> bytes -> list bytes -> N -> res (node * pstate)) : Prop :=
+  forall fuel name file ls ln, bal_post ls (ps fuel name file ls ln).
+
+Lemma section_loop_balanced : forall files ps room name file, ps_bal ps ->
+  forall fuel ls ln acc, bal_post ls (section_loop files ps room name file fuel ls ln acc).
+Proof.
+  intros files ps room name file Hps. induction fuel as [|f IH]; intros ls ln acc; [exact I|].
+  cbn [section_loop]. destruct ls as [|raw rest]; [exact I|].
+  assert (Hcont : forall d rest' ln' acc', brace_delta raw = d ->
+            (exists p, rest = p ++ rest' /\ balance p = (- d)%Z) ->
+            bal_post (raw :: rest) (section_loop files ps room name file f rest' ln' acc')).
+  { intros d rest' ln' acc' Hd [p [Hp Hb]]. specialize (IH rest' ln' acc'). unfold bal_post in *.
+    destruct (section_loop files ps room name file f rest' ln' acc') as [[n [rest0 ln0]]|e|w]; try exact I.
+    destruct IH as [p0 [Hp0 Hb0]]. exists (raw :: p ++ p0). split.
+    - rewrite Hp, Hp0. cbn [app]. rewrite <- app_assoc. reflexivity.
+    - cbn [app]. rewrite balance_cons, balance_app, Hd, Hb, Hb0. lia. }
+  assert (Hnested : forall nm, match ps f nm file rest (ln + 1) with
+                               | ROk (_, (rest', _)) => exists p, rest = p ++ rest' /\ balance p = (-1)%Z
+                               | _ => True end).
+  { intros nm. specialize (Hps f nm file rest (ln + 1)). unfold bal_post in Hps.
+    destruct (ps f nm file rest (ln + 1)) as [[n [rest' ln']]|e|w]; [exact Hps|exact I|exact I]. }
+  unfold section_step. unfold brace_delta in Hcont.
+  destruct (strip_suffix_byte LBRACE (clean_up raw)) as [sn0|] eqn:Esn.
+  - assert (Hhdr : forall nm (k : node -> pstate -> res (node * pstate)),
+              (forall n rest' ln', (exists p, rest = p ++ rest' /\ balance p = (-1)%Z) -> bal_post (raw :: rest) (k n (rest', ln'))) ->
+              bal_post (raw :: rest) (match ps f nm file rest (ln + 1) with
+                                      | ROk (n, st) => k n st | RErr e => RErr e | RCrash w => RCrash w end)).
+    { intros nm k Hk. specialize (Hnested nm). destruct (ps f nm file rest (ln + 1)) as [[n [rest' ln']]|e|w]; try exact I.
+      apply Hk. exact Hnested. }
+    destruct (starts_with kw_route_sp (trim sn0) && negb (beq (trim sn0) kw_route_brace)).
+    { specialize (Hnested (trim (after_space (trim sn0)))).
+      destruct (ps f (trim (after_space (trim sn0))) file rest (ln + 1)) as [[n [rest' ln']]|e|w]; try exact I.
+      destruct n; apply (Hcont 1%Z); try reflexivity; exact Hnested. }
+    destruct (starts_with kw_host_sp (trim sn0) && negb (beq (trim sn0) kw_host_brace)).
+    { specialize (Hnested (host_name_of (trim (after_space (trim sn0))))).
+      destruct (ps f (host_name_of (trim (after_space (trim sn0)))) file rest (ln + 1)) as [[n [rest' ln']]|e|w]; try exact I.
+      destruct n; apply (Hcont 1%Z); try reflexivity; exact Hnested. }
+    specialize (Hnested (trim sn0)).
+    destruct (ps f (trim sn0) file rest (ln + 1)) as [[n [rest' ln']]|e|w]; try exact I.
+    apply (Hcont 1%Z); [reflexivity|exact Hnested].
+  - destruct (beq (clean_up raw) [RBRACE]) eqn:Ecl.
+    + cbn [bal_post]. exists [raw]. split; [reflexivity|]. rewrite balance_cons. unfold brace_delta. rewrite Esn, Ecl. reflexivity.
+    + assert (Hsame : exists p, rest = p ++ rest /\ balance p = (- 0)%Z) by (exists []; split; reflexivity).
+      destruct (clean_up raw) as [|c0 l0] eqn:El; [apply (Hcont 0%Z); [reflexivity|exact Hsame]|].
+      destruct (split_once SP (c0 :: l0)) as [[a b]|]; [|exact I].
+      destruct (negb (beq (trim a) kw_include)).
+      * destruct (type_value (trim a) (trim b)); try exact I. apply (Hcont 0%Z); [reflexivity|exact Hsame].
+      * destruct (is_quoted (trim b)); [|exact I].
+        destruct (str_slice (trim b) 1 (length (trim b) - 1)) as [path|]; [|exact I].
+        destruct (include_with files room ps path file (ln + 1)); try exact I. apply (Hcont 0%Z); [reflexivity|exact Hsame].
+Qed.
+
+Lemma parse_section_balanced : forall files d, ps_bal (parse_section files d).
+Proof.
+  intros files. induction d as [|d IH]; intros fuel name file ls ln; [exact I|].
+  cbn [parse_section]. apply section_loop_balanced. exact IH.
+Qed.
+
+Lemma check_trailing_balance : forall ls ln, check_trailing ls ln = None -> balance ls = 0%Z.
+Proof.
+  induction ls as [|l ls IH]; intros ln H; [reflexivity|]. cbn [check_trailing] in H.
+  destruct (clean_up l) eqn:E; [|discriminate]. rewrite balance_cons, (IH _ H).
+  unfold brace_delta. rewrite E. reflexivity.
+Qed.
+
+(* the lines from the `server {` line on *)
+Fixpoint from_server (ls : list bytes) : option (list bytes) :=
+  match ls with
+  | [] => None
+  | l :: rest => if beq (clean_up l) kw_server_open then Some ls else from_server rest
+  end.
+
+Lemma find_server_from : forall ls ln, match find_server ls ln, from_server ls with
+                                         | Some (rest, _), Some (sl :: rest') => rest = rest' /\ brace_delta sl = 1%Z
+                                         | None, None => True
+                                         | _, _ => False
+                                         end.
+Proof.
+  induction ls as [|l ls IH]; intros ln; [exact I|]. cbn [find_server from_server].
+  destruct (beq (clean_up l) kw_server_open) eqn:E; [|apply IH].
+  split; [reflexivity|]. apply beq_eq in E. unfold brace_delta. rewrite E. reflexivity.
+Qed.
+
+(* an accepted file is balanced from its `server {` line to the end *)
+Theorem accepted_balanced : forall files file conf t, parse_conf files file conf = ROk t ->
+  exists ls, from_server (lines conf) = Some ls /\ balance ls = 0%Z.
+Proof.
+  intros files file conf t H. unfold parse_conf in H.
+  pose proof (find_server_from (lines conf) 0) as Hf.
+  destruct (find_server (lines conf) 0) as [[rest ln]|]; [|discriminate].
+  destruct (from_server (lines conf)) as [[|sl rest0]|]; try contradiction. destruct Hf as [<- Hsl].
+  pose proof (parse_section_balanced files conf_max_depth (S (length rest)) kw_server file rest ln) as Hb.
+  unfold bal_post in Hb.
+  destruct (parse_section files conf_max_depth (S (length rest)) kw_server file rest ln) as [[n [rest' ln']]|e|w]; try discriminate.
+  destruct Hb as [p [Hp Hbal]]. destruct (check_trailing rest' ln') eqn:Ect; [discriminate|].
+  exists (sl :: rest). split; [reflexivity|].
+  rewrite balance_cons, Hp, balance_app, Hbal, (check_trailing_balance _ _ Ect), Hsl. reflexivity.
+Qed.
+
+(* ... so a file that is not balanced is rejected (with an error, never a crash) *)
+Theorem unbalanced_rejected : forall files file conf, utf8_valid conf = true ->
+  (forall ls, from_server (lines conf) = Some ls -> balance ls <> 0%Z) ->
+  exists e, parse_conf files file conf = RErr e.
+Proof.
+  intros files file conf Hv Hun. pose proof (parse_conf_safe files file conf Hv) as Hs.
+  destruct (parse_conf files file conf) as [t|e|w] eqn:E; [|eauto|contradiction].
+  destruct (accepted_balanced files file conf t E) as [ls [Hls Hb]]. exfalso. exact (Hun ls Hls Hb).
+Qed.
+
+(* missing brace: take any accepted file and change one line after the `server {` line so that its effect on the nesting
+   changes (an opening brace dropped from a section header, a closing-brace line emptied, ...): the result is rejected *)
+Lemma from_server_app : forall a sl b, from_server a = None -> beq (clean_up sl) kw_server_open = true ->
+  from_server (a ++ sl :: b) = Some (sl :: b).
+Proof.
+  induction a as [|x a IH]; intros sl b Ha Hsl; cbn [app from_server].
+  - rewrite Hsl. reflexivity.
+  - cbn [from_server] in Ha. destruct (beq (clean_up x) kw_server_open); [discriminate|]. apply IH; assumption.
+Qed.
+
+Theorem missing_brace_rejected : forall files file conf conf' t a sl b l l' c,
+  parse_conf files file conf = ROk t -> utf8_valid conf' = true ->
+  lines conf = a ++ sl :: b ++ l :: c -> lines conf' = a ++ sl :: b ++ l' :: c ->
+  from_server a = None -> beq (clean_up sl) kw_server_open = true ->
+  brace_delta l' <> brace_delta l ->
+  exists e, parse_conf files file conf' = RErr e.
+Proof.
+  intros files file conf conf' t a sl b l l' c Hok Hv Hl Hl' Ha Hsl Hd.
+  destruct (accepted_balanced files file conf t Hok) as [ls [Hls Hb]].
+  rewrite Hl, (from_server_app a sl _ Ha Hsl) in Hls. injection Hls as <-.
+  apply unbalanced_rejected; [exact Hv|]. intros ls' Hls'.
+  rewrite Hl', (from_server_app a sl _ Ha Hsl) in Hls'. injection Hls' as <-.
+  rewrite balance_cons, balance_app, balance_cons in *. lia.
+Qed.
+
+(* the same for a deleted line (e.g. a closing-brace line removed) *)
+Theorem deleted_brace_line_rejected : forall files file conf conf' t a sl b l c,
+  parse_conf files file conf = ROk t -> utf8_valid conf' = true ->
+  lines conf = a ++ sl :: b ++ l :: c -> lines conf' = a ++ sl :: b ++ c ->
+  from_server a = None -> beq (clean_up sl) kw_server_open = true ->
+  brace_delta l <> 0%Z ->
+  exists e, parse_conf files file conf' = RErr e.
+Proof.
+  intros files file conf conf' t a sl b l c Hok Hv Hl Hl' Ha Hsl Hd.
+  destruct (accepted_balanced files file conf t Hok) as [ls [Hls Hb]].
+  rewrite Hl, (from_server_app a sl _ Ha Hsl) in Hls. injection Hls as <-.
+  apply unbalanced_rejected; [exact Hv|]. intros ls' Hls'.
+  rewrite Hl', (from_server_app a sl _ Ha Hsl) in Hls'. injection Hls' as <-.
+  rewrite balance_cons, balance_app in *. rewrite balance_cons in Hb. lia.
+Qed.
